@@ -1,6 +1,6 @@
 (* C10 - compression is transparent and honours the requested mode.  Statements only (partial). *)
 From Coq Require Import List ZArith NArith.
-From DOS Require Import Generated Base Store StoreProofs StoreLemmas Mono.
+From DOS Require Import Generated Base Store StoreProofs StoreLemmas Mono Compress.
 Import ListNotations.
 
 (* should_compress as a function of the mode: the AUTO verdict is an oracle (heuristic), the other three are fixed *)
@@ -34,6 +34,14 @@ Theorem C10_repack_keeps_keys : forall d rs o n,
   map rkey (apply_sql (apply_sql d (SUpdateRows rs)) (SRepoint o n)) = map rkey d.
 Proof. intros. rewrite repoint_keys, updaterows_keys. reflexivity. Qed.
 End C10.
+
+(* the AUTO heuristic (estimate_compression) on a stream of the length it is told: every seek stays inside [0, size] (so the
+   PackedObjectReader it is given during repack never raises), the sampling loop terminates, the position is restored *)
+Theorem C10_estimate_restores_position : forall L sample maxs pos0,
+  (0 < sample)%Z -> (0 <= maxs)%Z -> (0 <= pos0 <= L)%Z ->
+  exists targets, estimate L L sample maxs pos0 = Some (targets, pos0) /\ Forall (fun p => (0 <= p <= L)%Z) targets.
+Proof. exact estimate_ok. Qed.
+Print Assumptions C10_estimate_restores_position.
 
 (* the AUTO threshold of the current source: compress when the estimate is below 90% *)
 Theorem C10_threshold : COMPRESSION_THRESHOLD_PERMILLE = 900%Z /\ (0 < EST_SAMPLE_SIZE <= EST_MAX_SAMPLED)%Z.
